@@ -672,6 +672,7 @@ _NUM = re.compile(r"\d+")
 
 def _norm(line: str) -> str:
     line = re.sub(r"<ROOT>/[\w./-]+", "P", line)
+    line = re.sub(r"'[^']{0,60}'", "Q", line)  # quoted names (documents, ids, labels) are workload-specific
     return _NUM.sub("N", line).strip()[:90]
 
 
